@@ -94,9 +94,15 @@ def run(ctx, chk, tier):
             continue
         exp = {"pos": App("sort", (G,)), "neg": App("sort", (F,)), "nb_easy_pos": EG, "nb_easy_neg": EF, "score_class": bl[bname], "equal_class": bl["pos"]}
         bad = None
+        from ..typestate import sortedness, pc_implies_sorted, strip_views
         for o in rets:
             for k, w in exp.items():
                 g = o.value.attrs.get(k)
+                if k in ("pos", "neg") and g is not None and not same(g, w):
+                    # accept any provably ascending arrangement of the same input (e.g. a sort skipped under a sortedness test)
+                    base = strip_views(g)
+                    if base == w.args[0] and (sortedness(g) == "sorted" or pc_implies_sorted(o.pc, g)):
+                        continue
                 if g is None or not same(g, w):
                     bad = bad or (k, g, w)
         if bad is None:
@@ -113,9 +119,8 @@ def run(ctx, chk, tier):
         okg = [c for c in conds if c is not None and is_range_check(c, G)]
         okf = [c for c in conds if c is not None and is_range_check(c, F)]
         other = [c for c in conds if c is None or not (is_range_check(c, G) or is_range_check(c, F))]
-        if len(okg) == 1 and len(okf) == 1 and not other:
-            neg_ok = all({negate(okg[0]).key, negate(okf[0]).key} <= {(c if t else negate(c)).key for c, t in o.pc} | {(negate(c) if not t else c).key for c, t in o.pc}
-                         or all(any(c == k and not t for c, t in o.pc) for k in (okg[0], okf[0])) for o in rets)
+        if okg and okf and not other:
+            neg_ok = all(any(is_range_check(c, G) and not t for c, t in o.pc) and any(is_range_check(c, F) and not t for c, t in o.pc) for o in rets)
             if neg_ok:
                 chk.hold("R19.4", "validation:" + sc, "ValueError iff any(genuines<0)|any(genuines>1) or any(frauds<0)|any(frauds>1)")
             else:
